@@ -1310,7 +1310,7 @@ Proof.
   intros [IV IU] Hvalid Hok Hsnd.
   assert (Hfine : Forall (op_fine h u) ops).
   { apply Forall_forall. intros o Hin. split; [rewrite forallb_forall in Hvalid; apply Hvalid; exact Hin | rewrite Forall_forall in Hok; apply Hok; exact Hin]. }
-  unfold hook_batch, send_batch, spec_batch. rewrite forallb_validate, Hvalid. cbn [negb fst].
+  unfold hook_batch, send_batch, send_batch_ordered, spec_batch. rewrite forallb_validate, Hvalid. cbn [negb fst].
   rewrite groups_of_shortcut.
   assert (Hgs : Forall (fun g => g <> 0) (mentioned ops [])).
   { apply Forall_forall. intros g Hg. eapply mentioned_nonzero. exact Hg. }
@@ -1437,7 +1437,7 @@ Proof.
 Qed.
 
 Lemma invalid_batch st h ops : forallb spec_valid ops = false -> hook_batch st h ops = (st, true).
-Proof. intros H. unfold hook_batch, send_batch. rewrite forallb_validate, H. reflexivity. Qed.
+Proof. intros H. unfold hook_batch, send_batch, send_batch_ordered. rewrite forallb_validate, H. reflexivity. Qed.
 
 
 (* ------------------------------------------------------------------ *)
